@@ -20,16 +20,18 @@ def dump_py(t, raw):
     ins = ';'.join('%s:%d:%s:%d' % (i.prev_txid[::-1].hex(), int.from_bytes(i.output_n, 'big'), hexp(i.unlocking_script), i.sequence)
                    for i in t.inputs)
     outs = ';'.join('%d:%s' % (o.value, hexp(o.lock_script)) for o in t.outputs)
-    if t.witness_type == 'segwit':
-        wit = ';'.join((','.join(hexp(w) for w in i.witnesses)
-                        if (i.witnesses and (i.witness_type != 'legacy' or i.script_type == 'coinbase')) else '_') for i in t.inputs)
-    else:
-        wit = 'none'
     try:
         rr = t.raw()
         reser = 'same' if rr == raw else rr.hex()
     except Exception as e:
+        rr = None
         reser = 'raise:' + type(e).__name__
+    # (a transaction object of the segwit kind whose inputs are all legacy serialises in the old format: no witness section then)
+    if t.witness_type == 'segwit' and not (rr is not None and rr[4:6] != b'\x00\x01'):
+        wit = ';'.join((','.join(hexp(w) for w in i.witnesses)
+                        if (i.witnesses and (i.witness_type != 'legacy' or i.script_type == 'coinbase')) else '_') for i in t.inputs)
+    else:
+        wit = 'none'
     return 'v=%d lt=%d in=[%s] out=[%s] wit=[%s] txid=%s rest=0 reser=%s' % (
         int.from_bytes(t.version, 'big'), t.locktime, ins, outs, wit, t.txid, reser)
 
@@ -141,7 +143,8 @@ def run(ctx):
     # version in both of its forms, lock time, inputs, outputs, id after sign_and_update() - is what an independent parser reads
     # from its bytes
     for trial in range(80 if T else 24):
-        t, d = txgen.build_api_tx(rng, nin=rng.randint(1, 3), max_n=3, public_only=False)
+        # (the first one has legacy inputs only, in a transaction object of the default segwit kind)
+        t, d = txgen.build_api_tx(rng, nin=rng.randint(1, 3), max_n=3, public_only=False, kinds=['p2pkh', 'p2pkh_unc', 'p2sh_ms'] if trial == 0 else None)
         try:
             v_bytes, v_int, v_dict = int.from_bytes(t.version, 'big'), t.version_int, t.as_dict()['version']
             raw0 = t.raw()
@@ -161,6 +164,16 @@ def run(ctx):
             ctx.violation('sign_and_update() changed the serialised version of the transaction', {'op': 'api-built version', 'before': raw0[:4].hex(), 'after': raw1[:4].hex(),
                           'sequences': [i_.sequence for i_ in t.inputs]})
             continue
+        if raw1[4:6] == b'\x00\x01' and all(m_['wt'] == 'legacy' for m_ in d['meta']):
+            # BIP144: a transaction without witness data has the old serialisation; nodes reject bytes that carry the witness flag and
+            # only empty witness stacks ("superfluous witness record") - the Lean parser is lenient here, so this is checked directly
+            rep_ = {'op': 'api-built superfluous-witness', 'kinds': [m_['kind'] for m_ in d['meta']], 'raw_prefix': raw1[:12].hex()}
+            if any(f['id'] == 'F111' for f in ctx.known):
+                ctx.known_hit('F111', rep_)          # listed finding (the repair is pinned out by a baseline test)
+            else:
+                ctx.violation('a signed transaction whose inputs are all legacy serialises with the segwit marker and empty witness stacks (not readable by a consensus parser)', rep_)
+                continue
+        ctx.count('api-built:all-legacy-inputs' if all(m_['wt'] == 'legacy' for m_ in d['meta']) else 'api-built:with-segwit-input')
         chk.add(raw1, dump_py(t, raw1), False, 'api-built')
     # a witness stack handed over as ONE byte string (as in a raw transaction; the form in which stored transactions come back from the
     # wallet database): the input holds exactly the items, whatever their sizes, and serialises them again
